@@ -6,7 +6,10 @@ import (
 	"context"
 	"fmt"
 	"sort"
+	"sync"
+	"sync/atomic"
 	"testing"
+	"time"
 
 	corev1 "k8s.io/api/core/v1"
 	"k8s.io/apimachinery/pkg/api/resource"
@@ -19,6 +22,7 @@ import (
 	"github.com/koordinator-sh/koordinator/apis/extension"
 	"github.com/koordinator-sh/koordinator/apis/thirdparty/scheduler-plugins/pkg/apis/scheduling/v1alpha1"
 	"github.com/koordinator-sh/koordinator/pkg/scheduler/apis/config"
+	"github.com/koordinator-sh/koordinator/pkg/scheduler/plugins/elasticquota/core"
 )
 
 // C03 harness: long generated histories against the real plugin
@@ -1575,5 +1579,383 @@ func c03ExhaustiveCase(t *testing.T, h *vHarness, suit *pluginTestSuit, idx, sw,
 	}
 	if admitted > 0 {
 		h.Nontrivial()
+	}
+}
+
+// ---- bounded concurrency stream -------------------------------------------------------------------------------
+
+// c03Gate is a QuotaHookPlugin (the package's own extension point) that does nothing except hold the FIRST
+// "usage is given back" notification (OnPodUpdated(old, nil)) for one pod until it is released: it places a second
+// call deterministically inside the check-then-act window of the first one (the manager calls the hook between the
+// "is the pod assigned?" test and the update of used).
+type c03Gate struct {
+	podName string
+	armed   int32
+	entered chan struct{}
+	release chan struct{}
+}
+
+var _ core.QuotaHookPlugin = &c03Gate{}
+
+func (g *c03Gate) GetKey() string { return "verif-c03-gate" }
+func (g *c03Gate) IsQuotaUpdated(_, _ *core.QuotaInfo, _ *v1alpha1.ElasticQuota) bool {
+	return false
+}
+func (g *c03Gate) PreQuotaUpdate(_, _ *core.QuotaInfo, _ *v1alpha1.ElasticQuota, _ *core.QuotaUpdateState) {
+}
+func (g *c03Gate) PostQuotaUpdate(_, _ *core.QuotaInfo, _ *v1alpha1.ElasticQuota, _ *core.QuotaUpdateState) {
+}
+func (g *c03Gate) UpdateQuotaStatus(_, _ *v1alpha1.ElasticQuota) *v1alpha1.ElasticQuota { return nil }
+func (g *c03Gate) CheckPod(string, *corev1.Pod) error                                { return nil }
+func (g *c03Gate) OnPodUpdated(_ string, oldPod, newPod *corev1.Pod) {
+	if oldPod == nil || newPod != nil || oldPod.Name != g.podName {
+		return
+	}
+	if !atomic.CompareAndSwapInt32(&g.armed, 1, 0) {
+		return
+	}
+	close(g.entered)
+	select {
+	case <-g.release:
+	case <-time.After(5 * time.Second):
+	}
+}
+
+// TestVerifC03Race: Unreserve(p) racing OnPodDelete(p) (a pod deleted while it is being bound) or a second
+// Unreserve(p), with other assigned pods in the same group and its ancestors.  The first call is held inside its
+// check-then-act window by c03Gate, the second one is started then; on the unchanged tree the second simply waits
+// for the manager's lock.  Oracle at the quiescent point: used = sum of the requests of the still assigned pods
+// (every group of the path), and the next admission is judged on that.  Model: the two calls in either order.
+func TestVerifC03Race(t *testing.T) {
+	h := vOpen("C03")
+	if h == nil {
+		t.Skip("VERIF_OUT not set")
+	}
+	c03Names = nil
+	n := h.N(16, 80)
+	t.Run("race", func(t *testing.T) {
+		suit := newPluginTestSuit(t, nil)
+		var lvl klog.Level
+		_ = lvl.Set("0")
+		for idx := 0; idx < n; idx++ {
+			c03RaceCase(t, h, suit, idx)
+		}
+	})
+	h.Close("one history per case: group 2 below group 1 (or directly below the root), 2-3 pods admitted and reserved in group 2, then two calls for the " +
+		"same pod run concurrently - first Unreserve or OnPodDelete (held in its check-then-act window by a hook), second OnPodDelete / Unreserve - " +
+		"then one more admission attempt; switches = case index mod 4; non-trivial = the raced pod was assigned; distinct by op lines")
+}
+
+func c03RaceCase(t *testing.T, h *vHarness, suit *pluginTestSuit, idx int) {
+	r := h.Begin(idx)
+	if r == nil {
+		return
+	}
+	defer h.End()
+	pl, err := suit.proxyNew(context.TODO(), suit.elasticQuotaArgs, suit.Handle)
+	if err != nil {
+		t.Fatalf("failed to create plugin: %v", err)
+	}
+	gp := pl.(*Plugin)
+	w := &c03World{t: t, h: h, gp: gp, cfgRT: idx&1 == 1, cfgCP: idx&2 == 2, quotas: map[int]*c03Quota{}, pods: map[int]*c03Pod{},
+		stream: "race", closedLoop: true}
+	gp.pluginArgs.EnableRuntimeQuota = w.cfgRT
+	gp.pluginArgs.EnableCheckParentQuota = w.cfgCP
+	h.Tag(fmt.Sprintf("switches:rt%d-cp%d", vB(w.cfgRT), vB(w.cfgCP)))
+	h.Op("dims %d", c03D)
+	full := [c03D]bool{true, true, true}
+	big := c03RL{has: full, v: [c03D]int64{int64(r.Range(8, 12)) * 1000, 100, 100}}
+	deep := r.Bool()
+	if deep {
+		w.quotas[1] = &c03Quota{id: 1, isParent: true, lent: true, max: big, min: big}
+	}
+	leaf := &c03Quota{id: 2, lent: true, max: big, min: big}
+	if deep {
+		leaf.parent = 1
+	}
+	w.quotas[2] = leaf
+	capacity := c03RL{has: full, v: [c03D]int64{40000, 1000, 1000}}
+	w.rv++
+	h.Op("cap %s", vInts(capacity.v[:]))
+	gp.OnNodeAdd(c03Node(capacity, w.rv))
+	w.dump()
+	if deep {
+		w.setQuota(w.quotas[1])
+	}
+	w.setQuota(leaf)
+	np := r.Range(2, 3)
+	for id := 1; id <= np+1; id++ {
+		p := &c03Pod{id: id, quota: 2, np: r.Chance(1, 3), req: c03RL{has: [c03D]bool{true, r.Bool(), false}, v: [c03D]int64{int64(r.Range(1, 3)) * 1000, int64(r.Range(0, 3)), 0}}}
+		p.obj = c03MakePod(r, p)
+		w.pods[id] = p
+		h.Op("poddef %d %d %d %s", p.id, p.quota, vB(p.np), p.req.toks())
+		w.dump()
+		h.Op("podadd %d", p.id)
+		gp.OnPodAdd(p.obj)
+		p.inCache = true
+		w.dump()
+		if id > np {
+			break // the last pod asks for admission after the race
+		}
+		if w.attempt(p) {
+			h.Op("res %d", p.id)
+			gp.Reserve(context.TODO(), framework.NewCycleState(), p.obj, "n1")
+			p.assigned = true
+			w.dump()
+		}
+	}
+	victim := w.pods[r.Range(1, np)]
+	if victim.assigned {
+		h.Nontrivial()
+	}
+	gate := &c03Gate{podName: victim.obj.Name, entered: make(chan struct{}), release: make(chan struct{})}
+	gp.groupQuotaManager.SetHookPlugins([]core.QuotaHookPlugin{gate})
+	unres := func() { gp.Unreserve(context.TODO(), framework.NewCycleState(), victim.obj, "n1") }
+	del := func() { gp.OnPodDelete(victim.obj) }
+	kind := r.Intn(3)
+	first, second := unres, del
+	switch kind {
+	case 1:
+		first, second = del, unres
+	case 2:
+		second = unres
+	}
+	h.Tag(fmt.Sprintf("race-kind:%d", kind))
+	atomic.StoreInt32(&gate.armed, 1)
+	var wg sync.WaitGroup
+	wg.Add(1)
+	go func() { defer wg.Done(); first() }()
+	held := false
+	if victim.assigned {
+		select {
+		case <-gate.entered:
+			held = true
+		case <-time.After(3 * time.Second):
+			h.Fail("C03:race-window-not-reached", "the first call never reached the usage update")
+		}
+	}
+	done := make(chan struct{})
+	wg.Add(1)
+	go func() { defer wg.Done(); second(); close(done) }()
+	select {
+	case <-done:
+		if held {
+			h.Tag("race:second-call-ran-inside-the-window")
+		}
+	case <-time.After(120 * time.Millisecond):
+		h.Tag("race:second-call-waited-for-the-lock")
+	}
+	close(gate.release)
+	wg.Wait()
+	gp.groupQuotaManager.SetHookPlugins(nil)
+	// quiescent point
+	victim.assigned = false
+	if kind != 2 {
+		victim.inCache = false
+		h.Op("race %d", victim.id)
+	} else {
+		h.Op("unres %d", victim.id)
+	}
+	w.dump()
+	w.attempt(w.pods[np+1])
+}
+
+// ---- groups created late: pods wait (and are scheduled) in the default quota, then migrate ---------------------
+
+// TestVerifC03Late: pods labelled with a group that does not exist yet are filed under koordinator-default-quota
+// (group 1, finite max), may be admitted and reserved there, then the ElasticQuota is created and one tick of
+// migrateDefaultQuotaGroupsPod moves them - with their assigned flag and usage - into the group; further pods then
+// ask for admission in the group.  The tick runs before any pod event for a moved pod (a pod event between the
+// creation and the tick is outside the model).  Oracle: used = sum of the requests of the assigned pods per group
+// after every event, and the admission clauses on that.
+func TestVerifC03Late(t *testing.T) {
+	h := vOpen("C03")
+	if h == nil {
+		t.Skip("VERIF_OUT not set")
+	}
+	n := h.N(32, 300)
+	full := [c03D]bool{true, true, true}
+	dmax := c03RL{has: full, v: [c03D]int64{8000, 16, 4}}
+	t.Run("late", func(t *testing.T) {
+		suit := newPluginTestSuit(t, nil, func(a *config.ElasticQuotaArgs) { a.DefaultQuotaGroupMax = dmax.list() })
+		var lvl klog.Level
+		_ = lvl.Set("0")
+		for idx := 0; idx < n; idx++ {
+			c03LateCase(t, h, suit, idx, dmax)
+		}
+	})
+	c03Names = nil
+	h.Close("one history per case: default quota (group 1, max cpu 8 / mem 16 / gpu 4) + groups 3..5 of which one or two are created in the middle of " +
+		"the history; <=10 pods labelled with registered and not-yet-registered groups; 40 events: PreFilter, Reserve of the admitted pod, Unreserve, " +
+		"OnPodDelete (not for pods waiting for a tick), OnPodAdd, group creation followed by the migration tick, extra ticks; switches = case index mod 4; " +
+		"non-trivial = an assigned pod was migrated; distinct by op lines")
+}
+
+func c03LateCase(t *testing.T, h *vHarness, suit *pluginTestSuit, idx int, dmax c03RL) {
+	r := h.Begin(idx)
+	if r == nil {
+		return
+	}
+	defer h.End()
+	c03Names = map[int]string{1: extension.DefaultQuotaName}
+	pl, err := suit.proxyNew(context.TODO(), suit.elasticQuotaArgs, suit.Handle)
+	if err != nil {
+		t.Fatalf("failed to create plugin: %v", err)
+	}
+	gp := pl.(*Plugin)
+	w := &c03World{t: t, h: h, gp: gp, cfgRT: idx&1 == 1, cfgCP: idx&2 == 2, quotas: map[int]*c03Quota{}, pods: map[int]*c03Pod{},
+		special: map[int]bool{1: true}, stream: "late", closedLoop: false}
+	gp.pluginArgs.EnableRuntimeQuota = w.cfgRT
+	gp.pluginArgs.EnableCheckParentQuota = w.cfgCP
+	h.Tag(fmt.Sprintf("switches:rt%d-cp%d", vB(w.cfgRT), vB(w.cfgCP)))
+	h.Op("dims %d", c03D)
+	if got := c03FromList(gp.groupQuotaManager.GetQuotaInfoByName(extension.DefaultQuotaName).GetMax()); got != dmax {
+		t.Fatalf("fixture: default quota max is %v, want %v", got, dmax)
+	}
+	capacity := c03RL{has: [c03D]bool{true, true, true}, v: [c03D]int64{40000, 100, 20}}
+	w.rv++
+	h.Op("cap %s", vInts(capacity.v[:]))
+	gp.OnNodeAdd(c03Node(capacity, w.rv))
+	w.dump()
+	w.quotas[1] = &c03Quota{id: 1, max: dmax, added: true, lent: true}
+	w.order = []int{1}
+	h.Op("quota 1 0 0 1 %s %s", dmax.toks(), c03RL{}.toks())
+	w.dump()
+	h.Op("dflt 1")
+	w.dump()
+	// planned groups 3..5 (2 is reserved for the system quota); label[p] = the group named by the pod's label
+	var planned []int
+	for id := 3; id <= r.Range(3, 5); id++ {
+		q := &c03Quota{id: id, lent: true, max: c03GenMax(r, nil)}
+		q.min = c03GenMin(r, q.max)
+		w.quotas[id] = q
+		planned = append(planned, id)
+	}
+	label := map[int]int{}
+	waiting := func(p *c03Pod) bool { // filed under the default quota although its group exists: needs a tick
+		return p.inCache && p.quota == 1 && label[p.id] != 1 && w.quotas[label[p.id]].added
+	}
+	home := func(id int) int {
+		if l := label[id]; w.quotas[l].added {
+			return l
+		}
+		return 1
+	}
+	tick := func() {
+		moved := false
+		for _, p := range w.pods {
+			if waiting(p) {
+				if p.assigned {
+					moved = true
+				}
+				p.quota = label[p.id]
+			}
+		}
+		if moved {
+			h.Nontrivial()
+			h.Tag("late:assigned-pod-migrated")
+		}
+		h.Op("migrate")
+		gp.migrateDefaultQuotaGroupsPod()
+		w.dump()
+	}
+	register := func(id int) {
+		w.setQuota(w.quotas[id])
+		tick()
+	}
+	if r.Bool() {
+		register(planned[0])
+	}
+	pick := func(pred func(*c03Pod) bool) *c03Pod {
+		var ids []int
+		for id, p := range w.pods {
+			if pred(p) {
+				ids = append(ids, id)
+			}
+		}
+		if len(ids) == 0 {
+			return nil
+		}
+		sort.Ints(ids)
+		return w.pods[ids[r.Intn(len(ids))]]
+	}
+	nextPod, pending := 1, 0
+	for step := 0; step < 40; step++ {
+		k := r.Intn(100)
+		switch {
+		case pending != 0 && k < 75:
+			p := w.pods[pending]
+			pending = 0
+			h.Op("res %d", p.id)
+			gp.Reserve(context.TODO(), framework.NewCycleState(), p.obj, "n1")
+			if p.inCache {
+				p.assigned = true
+			}
+			w.dump()
+		case k < 45:
+			p := pick(func(p *c03Pod) bool { return p.inCache && !p.assigned })
+			if (p == nil || r.Chance(1, 3)) && len(w.pods) < 10 {
+				l := planned[r.Intn(len(planned))]
+				p = &c03Pod{id: nextPod, quota: l, np: r.Chance(1, 4), req: c03GenReq(r)}
+				nextPod++
+				label[p.id] = l
+				p.obj = c03MakePod(r, p) // the label names group l whether or not it exists
+				w.pods[p.id] = p
+				h.Op("poddef %d %d %d %s", p.id, l, vB(p.np), p.req.toks())
+				w.dump()
+				p.quota = home(p.id)
+				h.Op("podadd %d", p.id)
+				gp.OnPodAdd(p.obj)
+				p.inCache = true
+				w.dump()
+				h.Tag(fmt.Sprintf("late:pod-filed-under-default:%v", p.quota == 1))
+			}
+			if p == nil {
+				continue
+			}
+			pending = 0
+			if w.attempt(p) {
+				pending = p.id
+			}
+		case k < 57:
+			if p := pick(func(p *c03Pod) bool { return p.assigned }); p != nil {
+				h.Op("unres %d", p.id)
+				gp.Unreserve(context.TODO(), framework.NewCycleState(), p.obj, "n1")
+				p.assigned = false
+				if p.id == pending {
+					pending = 0
+				}
+				w.dump()
+			}
+		case k < 67:
+			if p := pick(func(p *c03Pod) bool { return p.inCache }); p != nil {
+				h.Op("del %d", p.id)
+				gp.OnPodDelete(p.obj)
+				p.inCache, p.assigned = false, false
+				if p.id == pending {
+					pending = 0
+				}
+				w.dump()
+			}
+		case k < 75:
+			if p := pick(func(p *c03Pod) bool { return !p.inCache }); p != nil {
+				p.quota = home(p.id)
+				h.Op("podadd %d", p.id)
+				gp.OnPodAdd(p.obj)
+				p.inCache = true
+				w.dump()
+			}
+		case k < 90:
+			for _, id := range planned {
+				if !w.quotas[id].added {
+					h.Tag("late:group-created")
+					register(id)
+					pending = 0
+					break
+				}
+			}
+		default:
+			tick() // nothing to move
+		}
 	}
 }
